@@ -42,7 +42,7 @@ type sreq struct {
 	B      int  `json:"b"`      // 0 = block A, 1 = block B, 2 = nil (votes only)
 	T      int  `json:"t"`      // timestamp index
 	Reload bool `json:"reload"` // reload the signer from its files before the request
-	Fail   bool `json:"fail"`   // the state directory is missing during the request (atomic write fails), then the process restarts
+	Fail   bool `json:"fail"`   // the state directory is missing during the request (an atomic write fails); the process restarts iff the signer panicked
 }
 
 func (q sreq) String() string {
@@ -53,7 +53,7 @@ func (q sreq) String() string {
 		s = "reload;" + s
 	}
 	if q.Fail {
-		s += "[savefail+restart]"
+		s += "[savefail]"
 	}
 	return s
 }
@@ -249,9 +249,11 @@ func (r *srun) do(q sreq) (viol *engine.Violation) {
 		r.reload() // the process died; restart
 		return nil
 	}
+	// q.Fail without a panic: the request needed no write (cached answer, refusal) or the signer survived the failing
+	// write. The process did NOT die, so it is not restarted: what it now holds in memory keeps answering, and a later
+	// reload (its own flag) brings back whatever reached the file.
 	if q.Fail {
-		// the request needed no write (cached answer or refusal); the process still restarts afterwards
-		defer r.reload()
+		r.counters["savefail_process_survived"]++
 	}
 	if err != nil {
 		r.counters["refused"]++
@@ -423,11 +425,11 @@ func (c *c20) Meta() engine.Meta {
 		CaseTimeout: 2 * time.Hour,
 		LevelName:   "1 = unpruned DFS of request sequences (length and decoration set per tier), 2 = BFS with state de-duplication over the fully decorated alphabet",
 		Technique:   "explicit-state exploration of signing-request sequences with reload / failing-write faults on the real SFilePV, invariant over the set of released signatures",
-		Rule: "requests = {proposal,prevote,precommit} x height{1,2} x round{0,1} x block{A,B,nil(votes)} x timestamp{t1,t2} (64), each optionally preceded by a reload of the signer from its key+state files and/or executed while the state directory is missing (the atomic write panics; the panic is recovered, the request struct inspected, the process 'restarts'). " +
+		Rule: "requests = {proposal,prevote,precommit} x height{1,2} x round{0,1} x block{A,B,nil(votes)} x timestamp{t1,t2} (64), each optionally preceded by a reload of the signer from its key+state files and/or executed while the state directory is missing (an atomic write fails: if the signer panics the panic is recovered, the request struct inspected and the process 'restarts'; if it does not, the process lives on with whatever it holds in memory). " +
 			"Oracle over ALL signatures ever released: one content per height/round/step (timestamp aside), no signature below the highest h/r/s signed, same message -> original signature and timestamp, every signature verifies for the message handed back, after every fresh signature the state file names exactly that message, nothing is released when the write failed. " +
 			"non-trivial = shard/BFS in which at least one request was refused or re-served.",
 		Assumptions: []string{
-			"durability below rename(2) (fsync ordering, power loss) is not observable in-process; a failing write is modelled by a missing state directory followed by a restart, because in production the panic kills the process",
+			"durability below rename(2) (fsync ordering, power loss) is not observable in-process; a failing write is modelled by a missing state directory; a restart follows exactly when the signer panicked, because in production the panic kills the process",
 			"secp256k1 signing and tendermint's canonical sign-bytes are trusted",
 		},
 	}
